@@ -165,6 +165,7 @@ type GenOpts struct {
 	Tx           bool
 	Batch        bool
 	Scans        bool
+	OnlineRetire bool // online log retention (WAL.ManageRetention on the running engine) after flushing everything
 	BigTxPct     int // chance (percent) that a transaction is larger than the 64KB log buffer (0 = 8)
 	TxWeight     int // weight of transactions in the op mix (0 = 8)
 }
@@ -265,7 +266,10 @@ func GenProgram(r *core.Rand, ks *KeySpace, tagPrefix string, o GenOpts) []Op {
 			}
 			prog = append(prog, Op{Kind: "batch", Sub: d})
 		case 5:
-			wr, wre, wcr := 0, 0, 0
+			wr, wre, wcr, wor := 0, 0, 0, 0
+			if o.OnlineRetire {
+				wor = 3
+			}
 			if o.Reopen {
 				wre = 4
 			}
@@ -275,7 +279,7 @@ func GenProgram(r *core.Rand, ks *KeySpace, tagPrefix string, o GenOpts) []Op {
 			if o.CompactRange {
 				wcr = 2
 			}
-			switch r.Pick(8, 5, wre, wr, wcr) {
+			switch r.Pick(8, 5, wre, wr, wcr, wor) {
 			case 0:
 				prog = append(prog, Op{Kind: "flush"})
 			case 1:
@@ -290,6 +294,8 @@ func GenProgram(r *core.Rand, ks *KeySpace, tagPrefix string, o GenOpts) []Op {
 					a, b = b, a
 				}
 				prog = append(prog, Op{Kind: "crange", Key: a, End: b})
+			case 5:
+				prog = append(prog, Op{Kind: "oretire", Val: []byte{byte(r.Intn(3))}})
 			}
 		case 6:
 			prog = append(prog, Op{Kind: "scan"})
@@ -328,6 +334,7 @@ type Exec struct {
 	lastSeq    uint64
 	lastNext   uint64
 	UsedCRange bool
+	RetentionRaced bool // an online retention call overlapped a log rotation (finding D33)
 	WriteErrs  int
 	Writes     int
 }
@@ -370,6 +377,7 @@ func (x *Exec) features(key []byte) map[string]string {
 		f["maint_since_write"] = "none"
 	}
 	f["uses_compact_range"] = fmt.Sprint(x.UsedCRange)
+	f["retention_raced_rotation"] = fmt.Sprint(x.RetentionRaced)
 	if v, ok := x.Model.M[k]; ok {
 		switch {
 		case len(v) == 0:
@@ -715,6 +723,32 @@ func (x *Exec) Run(prog []Op) {
 			// the sequence counter is not persisted outside the log (known limitation D36):
 			// monotonicity across a full retirement is judged by C08's dedicated scenario only
 			x.lastSeq, x.lastNext = 0, 0
+		case "oretire":
+			// online retention as the primary does it, after everything was flushed: every log file but
+			// the current one may go
+			for i := 0; i < 2; i++ {
+				if err := x.Eng.FlushImMemTables(); err != nil {
+					x.fail("maintenance_error", fmt.Sprintf("flush failed: %v", err), nil)
+					return
+				}
+			}
+			w := x.Eng.GetWAL()
+			rc := wal.WALRetentionConfig{}
+			switch op.Val[0] {
+			case 0:
+				rc.MaxFileCount = 1
+			case 1:
+				rc.MinSequenceKeep = w.GetNextSequence()
+			case 2:
+				rc.MaxFileCount = 2
+			}
+			n, err := w.ManageRetention(rc)
+			x.Trace[len(x.Trace)-1] += fmt.Sprintf("  -> %d files deleted, err %v", n, err)
+			if x.Eng.GetWAL() != w {
+				x.RetentionRaced = true // a background rotation replaced the log object during the call
+			}
+			x.noteMaint("oretire")
+			x.Res.Count("log_files_retired_online", int64(n))
 		case "scan":
 			if x.ScanFn != nil {
 				x.ScanFn(x, x.Step)
@@ -734,7 +768,7 @@ func (x *Exec) Run(prog []Op) {
 		}
 		full := x.Step%x.CheckEvery == 0
 		switch op.Kind {
-		case "flush", "compact", "crange", "reopen", "retire":
+		case "flush", "compact", "crange", "reopen", "retire", "oretire":
 			full = true
 		}
 		if full {
